@@ -6,7 +6,8 @@ import re
 
 import vlib
 
-SUB = {"<q>": '"', "<nl>": "\n", "<bs>": "\\", "<e2>": "é"}
+SUB = {"<q>": '"', "<nl>": "\n", "<bs>": "\\", "<e2>": "é", "<e4>": "\U0001F600", "<cr>": "\r", "<tab>": "\t", "<nul>": "\0",
+       "<u2028>": "\u2028", "<vt>": "\x0b", "<ff>": "\x0c"}
 
 
 def subst(v):
@@ -25,7 +26,8 @@ def features(schema):
     """which odd ingredients a schema contains (for the signature of a failing case)"""
     txt = json.dumps(schema)
     f = []
-    for mark, name in (("<q>", "quote"), ("<nl>", "newline"), ("<bs>", "backslash")):
+    for mark, name in (("<q>", "quote"), ("<nl>", "newline"), ("<bs>", "backslash"), ("<cr>", "cr"), ("<tab>", "tab"),
+                       ("<nul>", "nul"), ("<u2028>", "u2028"), ("<vt>", "vt"), ("]]", "long-bracket-close"), ("--", "dashes")):
         if mark in txt:
             f.append(name)
     return f
@@ -54,7 +56,8 @@ def run(ctx):
         for i, c in enumerate(cases):
             f.write(json.dumps({"id": i, "schema": subst(c["schema"])}) + "\n")
     p = vlib.run_bin("vh_schema", [cpath], timeout=ctx.pick(900, 3000))
-    out = vlib.ndjson(p.stdout)
+    # not vlib.ndjson: str.splitlines would also split at the U+2028 / VT / FF that some generated strings contain
+    out = [json.loads(l) for l in p.stdout.split("\n") if l.startswith("{")]
     records = [o for o in out if "id" in o]
     if len(records) != len(cases) or not any("summary" in o for o in out):
         raise vlib.ToolError("vh_schema: %d records for %d cases\n%s" % (len(records), len(cases), p.stderr[-2000:]))
@@ -77,12 +80,15 @@ def run(ctx):
     for i, c in enumerate(cases):
         ctx.count(("schema", json.dumps(c, sort_keys=True)), n=0, nontrivial=True)
     ctx.validated(len(records))
-    ctx.rule("every schema of two families enumerated by TLC: (A) title x property name x property schema x description "
+    ctx.rule("every schema of three families enumerated by TLC: (A) title x property name x property schema x description "
              "over fixed $defs, (B) definition name x definition schema x description under a root that references it; "
              "schema nodes of nesting depth 1 (quick) / 2 (thorough) over primitive types, nullable type arrays, enums, "
              "consts, $ref, arrays, objects, additionalProperties, anyOf/oneOf/allOf; names and strings include space, "
-             "quote, keyword, empty, dash, non-ASCII, newline, backslash; every schema is non-trivial (a root object with "
-             "a property and a definition)")
+             "quote, keyword, empty, dash, non-ASCII, newline, backslash; (C) one odd string (lone CR, CR LF, tab, NUL, VT/FF, "
+             "U+2028, `]]`, `--`, `--[[`, astral, trailing backslash, quote, CR next to quote / backslash, ...) in one of 22 "
+             "string positions (title, definition name, property names, enum / const values inline and in definitions, every "
+             "kind of description) of an otherwise plain schema; every schema is non-trivial (a root object with a property "
+             "and, except in some C positions, a definition)")
     rnd = random.Random(ctx.seed)
     for i in rnd.sample(range(len(cases)), min(3, len(cases))):
         ctx.sample({"schema": subst(cases[i]["schema"]), "annotation_text": records[i]["text"], "root_type_name": records[i]["root"],
@@ -126,10 +132,13 @@ def run(ctx):
                 where = "broken-line"
             else:
                 where = "other"
-            odd = [n for ch, n in (('\\', "backslash"), ('"', "quote")) if ch in line.replace('["', "").replace('"]', "")]
+            odd = [n for ch, n in (('\\', "backslash"), ('"', "quote"), ("\r", "cr"), ("\t", "tab"), ("\0", "nul"))
+                   if ch in line.replace('["', "").replace('"]', "")]
             cls = where + ("/" + "+".join(odd) if odd and where != "index-signature" else "")
         else:
             cls = "+".join(features(sch)) or "plain"
+        if c["fam"] == "C":   # one odd string in one position: position and ingredients of the string name the class
+            cls = "%s/%s" % (c["slot"], "+".join(features(c["odd"])) or "plain")
         sig = "C40/%s/%s" % (kind, cls)
         groups.setdefault(sig, []).append({"schema": subst(sch), "annotation_text": r["text"], "root_type_name": r["root"],
                                            "syntax_errors": r["errors"], "first_error": r["first_error"], "panic": r["msg"]})
